@@ -195,9 +195,9 @@ def gen_probe(rng, idx):
     cfg = rand_cfg(rng, seed=["freshgen", s] if shared else ["none"])
     cfg.update(g_in=0.0, g_fb=0.0, g_rc=0.0)
     script = own_script(rng, cfg)
+    if script[1]["op"] != "init":      # explicit initialize first, so that both variants draw W, Win, bias, Wfb in the same order
+        script.insert(1, {"op": "init", "din": script[-1]["din"]})
     norun = [o for o in script if o["op"] != "run"]
-    if not any(o["op"] == "init" for o in norun):
-        norun.append({"op": "init", "din": script[-1]["din"]})
     rows, cols = rng.randint(1, 4), rng.randint(1, 4)
     hist = []
     for variant in (script, norun):
@@ -515,7 +515,8 @@ def _judge_history(h):
     for k in range(1, h["ncopies"]):
         cur = per.get(k, [])
         if h.get("vary"):
-            cur = [(t, x) for t, x in cur if t < 4]
+            cur = sorted((t, x) for t, x in cur if t < 4)
+            ref = sorted(ref)
         for (t1, h1), (t2, h2) in zip(ref, cur):
             if t1 != t2 or h1 != h2:
                 return _viol("%s:%s" % (kind, TAGN.get(t1, "?")),
@@ -642,6 +643,24 @@ def oracle(ctx, scale=1):
             for comp in ("W", "trajectory"):
                 if r1[comp] == r3[comp]:
                     viol.append(_viol("different:" + comp, "seeds %d and %d give the same %s" % (s, s2, comp), sc, "different", r1[comp]))
+            # feedback attached after noisy warm-up runs of different lengths: same weights, in particular same Wfb
+            hs = []
+            for warm in (0, rng.choice([3, 7]), rng.choice([11, 13])):
+                from reservoirpy.nodes import Ridge
+                n = _mk(s, "w", fb=False, **{rng.choice(["noise_rc", "noise_in"]): 0.1})
+                if warm:
+                    n.run(xdata(0, warm, 2))
+                ro = Ridge(FB_DIM, name=uname("ro"))
+                ro.initialize(np.zeros((1, 6)), np.zeros((1, FB_DIM)))
+                n <<= ro
+                n.initialize(xdata(0, 1, 2))
+                n.initialize_feedback()
+                hs.append({"W": sha(n.W), "Win": sha(n.Win), "bias": sha(n.bias), "Wfb": sha(n.Wfb)})
+                ev += 1
+            for comp in ("W", "Win", "bias", "Wfb"):
+                if len({h_[comp] for h_ in hs}) != 1:
+                    viol.append(_viol("seeded:" + comp, "same integer seed, %s depends on the noisy runs made before the feedback "
+                                      "connection was initialised" % comp, dict(sc, check="warmup"), hs[0][comp], [h_[comp] for h_ in hs]))
             # each of the three noises alone: reproducible, and effective
             quiet, _ = _build(s)
             for which in ("noise_in", "noise_rc", "noise_fb"):
